@@ -156,23 +156,31 @@ Proof.
     rewrite cl_in by (rewrite (gcol_length n res i Hres Hi); exact Hj). reflexivity.
 Qed.
 
-(* res <- a - res: canonical only when every column of res is touched, i.e. when the ranks agree *)
+(* res <- a - res; the columns of res beyond a.rank are negated (a's missing columns read as 0) *)
 Theorem sub_negate_assign_canon res a r : wf_glwe n res -> wf_glwe n a ->
-  g_ncols a = g_ncols res ->
   (forall i j, vsub W64 (gl n a i j) (gl n res i j) = psub (gl n a i j) (gl n res i j)) ->
   glwe_sub_negate_assign n res a = Some r ->
   r = gmap2 Fsub n res a res /\ (g_ncols a <= g_ncols res)%nat /\ (g_ncols res <= g_ncols res)%nat.
 Proof.
-  intros Hres Ha Hc Hw. unfold glwe_sub_negate_assign.
+  intros Hres Ha Hw. unfold glwe_sub_negate_assign.
   destruct (_ && _)%bool eqn:E; [|discriminate]. intros [= <-]. split_andb E.
   pose proof (ncols_rank n res Hres) as Nr. pose proof (ncols_rank n a Ha) as Na.
+  pose proof (rank_eq_or_0_le res a Hres Ha E0) as Hle.
   split; [|lia].
   rewrite gmap2_cols by assumption. unfold mapi_cols. f_equal. apply map_seq_ext. intros i Hi.
   pose proof (gcol_wf n res i Hres Hi) as Wr.
-  destruct (Nat.leb_spec i (g_rank a)) as [H1|H1]; [|lia].
-  rewrite (col_sub_negate_assign n _ _ (g_size a) (g_size res)); [| apply gcol_wf; [assumption|lia] | assumption |].
-  - rewrite (gcol_length n res i Hres Hi). reflexivity.
-  - intros j. specialize (Hw i j). rewrite !gl_cl in Hw by assumption. exact Hw.
+  destruct (Nat.leb_spec i (g_rank a)) as [H1|H1].
+  - rewrite (col_sub_negate_assign n _ _ (g_size a) (g_size res)); [| apply gcol_wf; [assumption|lia] | assumption |].
+    + rewrite (gcol_length n res i Hres Hi). reflexivity.
+    + intros j. specialize (Hw i j). rewrite !gl_cl in Hw by assumption. exact Hw.
+  - unfold Fsub. rewrite (col_unary_assign n (vneg W64) pneg).
+    + rewrite (gcol_length n res i Hres Hi). apply build_ext. intros j _.
+      rewrite (gcol_out a i) by lia. rewrite cl_nil.
+      rewrite psub_pzero_l' by (apply cl_gcol_length; exact Hres). reflexivity.
+    + intros j. specialize (Hw i j). rewrite !gl_cl in Hw by assumption.
+      rewrite (gcol_out a i) in Hw by lia. rewrite cl_nil in Hw.
+      rewrite psub_pzero_l' in Hw by (apply cl_gcol_length; exact Hres).
+      unfold pzero in Hw. rewrite vsub_zero_l in Hw by (apply cl_gcol_length; exact Hres). exact Hw.
 Qed.
 
 (* ---------------- unary: negate / copy / rotate / mul_xp_minus_one ---------------- *)
@@ -299,14 +307,12 @@ Definition Fw (opc k : Z) : option (list Z -> list Z -> list Z) :=
   | _ => None
   end.
 
-(* "this call is exact": no 64-bit wrap on any (zero-extended) limb pair the call combines; for glwe_sub_negate_assign
-   additionally equal ranks (with a rank-0 operand the code does not negate the mask columns of res: see C02_sub_negate_assign_rank0) *)
+(* "this call is exact": no 64-bit wrap on any (zero-extended) limb pair the call combines *)
 Definition step_exact (n : nat) (opc k : Z) (res a b : glwe) : Prop :=
   match exact_F opc k, Fw opc k with
   | Some (F, ix, iy), Some fw =>
       let x := pick3 ix res a b in let y := pick3 iy res a b in
-      (forall i j, fw (gl n x i j) (gl n y i j) = F (gl n x i j) (gl n y i j)) /\
-      (opc = 5 -> g_ncols a = g_ncols res)
+      forall i j, fw (gl n x i j) (gl n y i j) = F (gl n x i j) (gl n y i j)
   | _, _ => False
   end.
 
@@ -322,8 +328,7 @@ Proof.
   unfold exact_F in HF.
   destruct opc as [|p|p]; try discriminate.
   repeat (match goal with q : positive |- _ => destruct q end; try (cbn in HF; discriminate)).
-  all: injection HF as <- <- <-; cbn [Fw pick3] in Hs; destruct Hs as [Hw H5]; cbn [exec_op pick3] in *.
-  all: try (specialize (H5 eq_refl)).
+  all: injection HF as <- <- <-; cbn [Fw pick3] in Hs; rename Hs into Hw; cbn [exec_op pick3] in *.
   all: first [ solve [eapply add_into_canon; eauto] | solve [eapply add_assign_canon; eauto]
              | solve [eapply sub_canon; eauto] | solve [eapply sub_assign_canon; eauto]
              | solve [eapply sub_negate_assign_canon; eauto] | solve [eapply negate_canon; eauto]
